@@ -370,6 +370,27 @@ Proof.
   split; [intros cid p sent I; exact (G _ I) | intros cid p I; exact (G _ I)].
 Qed.
 
+Lemma unhold_regular maxcap created m : unhold (regular_expiry maxcap created m) = regular_expiry maxcap created m.
+Proof.
+  unfold unhold, regular_expiry. destruct (min_nz maxcap m =? 0); [reflexivity|].
+  replace (Z.of_N (created + min_nz maxcap m) <? 0)%Z with false by lia. reflexivity.
+Qed.
+
+(* without an interval of its own a message lives exactly as long as the server's maximum allows *)
+Lemma deadline_no_interval maxcap created x ver (fh : val) pid topic payload origin pf pff mei props :
+  ((ver =? 5) && (0 <? x)%Z) = false ->
+  let e := regular_expiry maxcap created 0 in
+  deadline maxcap (mkPkt fh pid topic payload origin created e (if (0 <? e)%Z then 5 else 0) pf pff mei props) =
+  (if 0 <? maxcap then Some (Z.of_N (created + maxcap)) else None).
+Proof.
+  intros _. cbn zeta. unfold deadline. cbn [p_ver p_expiry p_created]. rewrite unhold_regular.
+  unfold regular_expiry, min_nz. destruct (maxcap =? 0) eqn:C.
+  - change (0 =? 0) with true. cbn [orb]. replace (0 <? maxcap) with false by lia. reflexivity.
+  - change (0 =? 0) with true. cbn [orb]. rewrite C. replace (0 <? maxcap) with true by lia.
+    replace (0 <? Z.of_N (created + maxcap))%Z with true by lia. change (5 =? 5) with true. cbn [andb min_optz].
+    f_equal. lia.
+Qed.
+
 Lemma deadline_restored maxcap fh pid topic payload origin created expiry ver pf pff mei props pid' topic' :
   irregular maxcap (mkPkt fh pid topic payload origin created expiry ver pf pff mei props) = false ->
   let e := regular_expiry maxcap created (eff_mei fh mei) in
@@ -378,26 +399,36 @@ Lemma deadline_restored maxcap fh pid topic payload origin created expiry ver pf
   wire_expiry q = wire_expiry (mkPkt fh pid topic payload origin created expiry ver pf pff mei props).
 Proof.
   unfold irregular. cbn [p_expiry p_created p_fh p_mei p_ver]. intro H.
-  apply orb_false_iff in H. destruct H as [H1 H2]. apply negb_false_iff in H1. apply Z.eqb_eq in H1.
-  cbn zeta. unfold deadline, wire_expiry. cbn [p_ver p_expiry p_created]. rewrite H1.
-  assert (U : unhold (regular_expiry maxcap created (eff_mei fh mei)) = regular_expiry maxcap created (eff_mei fh mei)).
-  { unfold unhold, regular_expiry. destruct (min_nz maxcap (eff_mei fh mei) =? 0); [reflexivity|].
-    replace (Z.of_N (created + min_nz maxcap (eff_mei fh mei)) <? 0)%Z with false by lia. reflexivity. }
-  rewrite U. cbn zeta. split; [|reflexivity].
-  set (e := regular_expiry maxcap created (eff_mei fh mei)).
-  destruct (0 <? e)%Z eqn:E.
-  - change (5 =? 5) with true. cbn [andb].
-    destruct (ver =? 5) eqn:V; cbn [andb]; [reflexivity|].
-    (* not MQTT 5: then there is no interval, and the expiry time is the server's cap *)
-    cbn [negb] in H2. rewrite andb_true_r in H2. apply N.ltb_ge in H2.
-    assert (M : eff_mei fh mei = 0) by lia.
-    unfold e, regular_expiry, min_nz in *. rewrite M in *.
-    destruct (maxcap =? 0) eqn:C; cbn [orb] in *.
-    + cbn in E. discriminate E.
-    + change (0 =? 0) with true in *. cbn [orb] in *. rewrite C in *.
-      assert (0 < maxcap) by lia. replace (0 <? maxcap) with true by lia. cbn [min_optz].
-      f_equal. lia.
-  - change (0 =? 5) with false. cbn [andb]. rewrite andb_false_r. reflexivity.
+  assert (T : (match fh with VL (VN t :: _) => t | _ => 3 end) = fh_type fh) by reflexivity.
+  destruct (fh_type fh =? 3) eqn:TY.
+  - (* a PUBLISH *)
+    apply orb_false_iff in H. destruct H as [H1 H2]. apply negb_false_iff in H1. apply Z.eqb_eq in H1.
+    cbn zeta. unfold deadline, wire_expiry. cbn [p_ver p_expiry p_created p_fh]. rewrite H1, unhold_regular.
+    cbn zeta. split; [|reflexivity].
+    set (e := regular_expiry maxcap created (eff_mei fh mei)).
+    destruct (0 <? e)%Z eqn:E.
+    + change (5 =? 5) with true. cbn [andb].
+      destruct (ver =? 5) eqn:V; cbn [andb]; [reflexivity|].
+      cbn [negb] in H2. rewrite andb_true_r in H2. apply N.ltb_ge in H2.
+      assert (M : eff_mei fh mei = 0) by lia.
+      unfold e, regular_expiry, min_nz in *. rewrite M in *.
+      destruct (maxcap =? 0) eqn:C; cbn [orb] in *.
+      * cbn in E. discriminate E.
+      * change (0 =? 0) with true in *. cbn [orb] in *. rewrite C in *.
+        assert (0 < maxcap) by lia. replace (0 <? maxcap) with true by lia. cbn [min_optz].
+        f_equal. lia.
+    + change (0 =? 5) with false. cbn [andb]. rewrite andb_false_r. reflexivity.
+  - (* an acknowledgement: no interval, nothing on the wire *)
+    assert (M : eff_mei fh mei = 0) by (unfold eff_mei; rewrite TY; reflexivity).
+    cbn zeta. rewrite M. split.
+    + destruct (ver =? 5) eqn:V.
+      * cbn [andb] in H. apply negb_false_iff in H. apply Z.eqb_eq in H.
+        unfold deadline. cbn [p_ver p_expiry p_created]. rewrite H, unhold_regular, V.
+        set (e := regular_expiry maxcap created 0). destruct (0 <? e)%Z; [reflexivity|].
+        change (0 =? 5) with false. cbn [andb]. reflexivity.
+      * rewrite (deadline_no_interval maxcap created 0 ver) by (rewrite V; reflexivity).
+        unfold deadline. cbn [p_ver p_expiry p_created]. rewrite V. cbn [andb min_optz]. reflexivity.
+    + unfold wire_expiry. cbn [p_fh p_expiry]. rewrite !T, TY. reflexivity.
 Qed.
 
 Lemma strip_alias_idem v : strip_alias (strip_alias v) = strip_alias v.
